@@ -60,10 +60,10 @@ def solver_cells(quick):
 class Prepared:
     """A supercell with its three basis sets computed once."""
 
-    def __init__(self, cname, diag, rng, shuffle=True, cutoff=None):
+    def __init__(self, cname, diag, rng, shuffle=True, cutoff=None, sc=None):
         from symfc import Symfc
 
-        self.sc = make_supercell(base_cells()[cname], diag, rng=rng, shuffle=shuffle)
+        self.sc = sc if sc is not None else make_supercell(base_cells()[cname], diag, rng=rng, shuffle=shuffle)
         self.atoms = atoms_of(self.sc)
         self.N = len(self.sc["numbers"])
         self.cutoff = cutoff
